@@ -2,10 +2,13 @@
    Full statement (DESIGN.md §5): compile d p f = Ok prog -> spec_parse d p = Valid a ->
    backref_free a -> (is_match prog s = true <-> spec_is_match f s a = true).  It is NOT proved yet
    (it needs E1 for all fourteen operations, and is false on the classes of the known findings
-   KF-D7 / KF-D20); what is proved are leaf instances of E1 and the order-freeness of the
-   specification's language.  The property is otherwise carried by the correspondence check
+   KF-D7 / KF-D20); what is proved: the statement on the quantifier-free fragment, against the
+   specification's set semantics, for unoptimised programs (C01_fragment_language_partial), E1/E5
+   on the larger fragment with fixed-length and unambiguous repeats against the pure
+   list-of-successes function, leaf instances of E1 and the order-freeness of the specification's
+   language.  The property is otherwise carried by the correspondence check
    (exhaustive small ASTs x inputs, random stream) against the extracted spec_is_match. *)
-From RX Require Import Base.Prelude Base.InvList Spec.Syntax Spec.Sem Model.Op Model.Engine Proofs.LeafFacts Model.Matcher Model.Api Proofs.EngineFacts Proofs.EngineCorollaries.
+From RX Require Import Base.Prelude Base.InvList Spec.Syntax Spec.Sem Model.Op Model.Engine Proofs.LeafFacts Model.Matcher Model.Api Proofs.EngineFacts Proofs.EngineCorollaries Proofs.LowerFacts Proofs.FragmentSpec Model.Compiler.
 
 (* a literal character is the specification's RChar, at every position, in every context *)
 Theorem C01_literal_partial :
@@ -57,8 +60,37 @@ Example C01_fragment_nonvacuous :
   /\ exists s', matches ex_prog [122; 98; 100; 100; 120]%N 0 st0 = MTrue s'.
 Proof. split; [exact ex_simple | exact ex_runs]. Qed.
 
+(* E1 + E4 + E5 on the quantifier-free fragment: [o] is any operation tree built from anchors,
+   literals, classes, captures, sequence and alternation; [lowers] relates it to a regular expression
+   member by member (leaves: equal character predicates; (?: ) transparent).  Then matching from
+   offset 0 succeeds exactly when some substring of the input belongs to the language of r as the
+   specification defines it (order-free set semantics) - for every input. *)
+Theorem C01_fragment_language_partial :
+  forall prog input fl o r s,
+    p_op prog = make_sequence o OEnd ->
+    plain (p_hasbackrefs prog) (p_maxparens prog) o ->
+    lowers (p_case prog) fl o r -> s_i fl = p_case prog -> s_m fl = p_multi prog ->
+    (p_hasbol prog = false /\ p_minlen prog = 0%N /\ p_prefix prog = None /\ p_icc prog = None /\ p_pre prog = []) ->
+    length (sb s) = length (eb s) ->
+    ((exists s', matches prog input 0 s = MTrue s') <-> spec_is_match fl input r = true).
+Proof. exact fragment_is_match_spec. Qed.
+
+(* the engine's end positions are the specification's, operation by operation *)
+Theorem C01_fragment_ends_partial :
+  forall input ci multi hb K fl, s_i fl = ci -> s_m fl = multi ->
+    forall o, plain hb K o -> forall r, lowers ci fl o r ->
+      forall p q, p <= length input -> (In q (Rop input ci multi o p) <-> In q (ends fl input r p)).
+Proof. exact lowers_ends. Qed.
+
+Example C01_language_nonvacuous :
+  p_op ex_prog = make_sequence ex_op OEnd /\ plain false 1 ex_op /\ lowers false ex_fl ex_op ex_re
+  /\ spec_is_match ex_fl [122; 98; 100; 100; 120]%N ex_re = true.
+Proof. split; [reflexivity|]. split; [exact ex_plain|]. split; [exact ex_lowers | exact ex_agree]. Qed.
+
 Print Assumptions C01_literal_partial.
 Print Assumptions C01_class_partial.
 Print Assumptions C01_alternation_is_union.
 Print Assumptions C01_order_free_spec.
 Print Assumptions C01_fragment_is_match_partial.
+Print Assumptions C01_fragment_language_partial.
+Print Assumptions C01_fragment_ends_partial.
